@@ -145,9 +145,12 @@ package state
 //@   ensures forall i in 0..len(result.Txns) :: result.Txns[i] != nil
 
 // readers of chain configuration: no effect on the modelled state
+//   lfmbOf(ctx)   the block StateContextI.GetLastestFinalizedMagicBlock returns for that context
+//@ uf lfmbOf (Iface) Ptr
 //@ iface 0chain.net/chaincore/chain/state.StateContextI.GetLastestFinalizedMagicBlock
 //@   params self
 //@   pure
+//@   ensures result == lfmbOf(self)
 //@ iface 0chain.net/chaincore/chain/state.StateContextI.GetMagicBlock
 //@   params self round
 //@   pure
